@@ -437,6 +437,10 @@ def iddef(a=ID_DEFAULT, b=_MISSING_SENTINEL, c=1, child=None):
   return _r.rec('iddef', locals())
 
 
+def iddef_pos(a=ID_DEFAULT, /, b=_MISSING_SENTINEL, c=SHARED_DEFAULT, *va):
+  return _r.rec('iddef_pos', locals())
+
+
 def mutdef(a=SHARED_DEFAULT, b=SHARED_DEFAULT, c=(1, 2), d=None):
   """Defaults that are a shared mutable object."""
   return _r.rec('mutdef', locals())
